@@ -142,7 +142,7 @@ package utils
 // n - and Read is PROVED to behave as the io.Reader contract says with respect to that definition
 // (same clause texts as the assumed "iface io.Reader.Read"), so consumers reasoning with the
 // assumed interface contract are right about this implementation.
-//@ property C04 C08
+//@ property C04 C08 C07
 //@ ghost ebase(ref) int const
 //@ spec func exAvail0(e *exactReader) int = rend(e.r) - ebase(e)
 //@ spec func exInv(e *exactReader) bool = e != nil && e.r != nil && rwf(e.r) && lsrc(e) == e.r && ebase(e) >= 0 && 0 <= rpos(e) && rpos(e) <= rend(e) && rpos(e.r) == ebase(e) + rpos(e) && rend(e) == ite(llim(e) <= 0, 0, min(llim(e), exAvail0(e))) && rbad(e) == (llim(e) > 0 && exAvail0(e) < llim(e)) && e.n == ite(llim(e) <= 0, llim(e), llim(e) - rpos(e))
@@ -172,6 +172,7 @@ package utils
 //@   ensures progress: implies(n == 0 && len(p) > 0, err != nil)
 //@   ensures end_reported: implies(old(rpos(e)) == rend(e) && len(p) > 0, err != nil && (err == io.EOF) == !rbad(e))
 //@   ensures truncation_is_an_error: implies(err == io.EOF, e.n <= 0)
+//@   ensures source_errors_are_passed_on_unchanged: implies(called("io.Reader.Read"), n == callres("io.Reader.Read", 0) && implies(callres("io.Reader.Read", 1) != io.EOF, err == callres("io.Reader.Read", 1)))
 //@   ensures keeps: exInv(e)
 
 // no mutable package-level state (C12, and every property whose plan touches this package)
